@@ -157,7 +157,7 @@ def C16():
         assumptions=["FigureOnly / EncodeFigure use rtf_read_figure through its contract (unit ReadFigure: one (bytes, format) per path, in order); "
                      "open(path,'rb') / f.read() and Path.exists are assumed file-system contracts (unit ReadImageData binds path, mode and the whole-file read); the appended parts of _encode_figure_only are observed through a handler on "
                      "parts.append (the function only appends)"],
-        replayers={"services/figure_service.py::RTFFigureService": R.replay_figures, "encoding/unified_encoder.py::UnifiedRTFEncoder._encode_figure_only": R.replay_figure_document, "figure.py::": R.replay_figure_document, "figure.py::_read_image_data": R.replay_figures, "input.py::": R.replay_figures},
+        replayers={"services/figure_service.py::RTFFigureService": R.replay_figures, "encoding/unified_encoder.py::UnifiedRTFEncoder._encode_figure_only": R.replay_figure_document, "figure.py::": R.replay_figure_document, "figure.py::_read_image_data": R.replay_figures, "figure.py::rtf_read_figure": R.replay_figures, "input.py::": R.replay_figures},
         design_ref="4/C16, A19",
     )
 
@@ -264,6 +264,7 @@ def C15():
 
 def C01():
     from contracts.emitters import UNITS as EM
+    from contracts.processor import PaginationBorders
     from contracts.attributes import EncodeRows, Iloc, ToList, UpdateCell
     from contracts.encoder import EncodeCtx
     from contracts.row import ColWidths, ConvertSpecialChars, LEMMAS
@@ -278,7 +279,8 @@ def C01():
              ContractUnit(ConvertSpecialChars()), ContractUnit(PageBreak()), ContractUnit(PageSettings()), ContractUnit(EncodePageSettings()), ContractUnit(EncodeSingleFigure()),
              ContractUnit(GenerateColorTable()), ContractUnit(EncodeColumnHeader()), ContractUnit(RenderColumnHeaders()),
              ContractUnit(SublineHeader()), ContractUnit(EncodeSpanningRow()), _figure_doc_unit(), _multi_section_unit(),
-             ContractUnit(Iloc()), ContractUnit(ToList()), ContractUnit(UpdateCell())] + _text_units() + _note_units() + LEMMAS
+             ContractUnit(Iloc()), ContractUnit(ToList()), ContractUnit(UpdateCell()),
+             ContractUnit(PaginationBorders(), variants=["middle.rowsN", "last_notfirst.rowsN"])] + _text_units() + _note_units() + LEMMAS
     return Property(
         "C01", units=units, level="proof",
         technique="measure contracts (brace balance / minimal prefix balance / ASCII / integral parameters) on the real emitters' f-strings, row-shape "
